@@ -612,6 +612,16 @@ func c04Mutations(c *core.Ctx, cn *int) {
 					d2["signatures"].([]any)[0].(map[string]any)["sig"] = nv
 					files = append(files, mutFile{"signature " + name, d2})
 				}
+				// a valid signature value followed by something: not the signature any more
+				suffixes := []string{"0", "zz", " ", "\n", "=", "g", "00"}
+				if dsse {
+					suffixes = []string{"A", "AAAA", "=", "*", " "}
+				}
+				for _, suf := range suffixes {
+					d2 := gen.DeepCopy(d).(map[string]any)
+					d2["signatures"].([]any)[0].(map[string]any)["sig"] = sv + suf
+					files = append(files, mutFile{fmt.Sprintf("signature with suffix %q", suf), d2})
+				}
 				{
 					d2 := gen.DeepCopy(d).(map[string]any)
 					kid := sig0["keyid"].(string)
@@ -708,7 +718,7 @@ func init() {
 	core.Register(&core.Property{
 		ID:    "C04",
 		Level: "exploration",
-		Rule: "(1) all operation histories of length<=3 (quick) / <=4 (thorough) over {sign(k0 Ed25519), sign(k1 ECDSA P-256), sign(k2 RSA-2048), dump+load, change a signed field, sign again with the last signer, edit an element of a collection handed out by GetPayload and set the payload again} x {link, layout} x {legacy, DSSE}; after every operation each of 4 keys (3 history keys + an outsider) must verify iff it signed the current content, and every emitted signature is verified independently with crypto/* over reference bytes (reference canonical JSON / reference DSSE PAE); (2) every key kind (RSA-2048/3072, ECDSA P-224/256/384/521, Ed25519; thorough: fresh keys too) x wrapper x payload: library signs -> stdlib verifies, dump+load, stdlib signs reference bytes -> library verifies; DSSE envelope of an independent implementation (other JSON spelling of the payload; standard or URL-safe base64 for signature / payload) loaded, verified, signed with a second key, both signatures verified by the library and independently over the dumped payload bytes; (3) single-point mutations: every payload leaf edit/delete/insert, signature first/middle/last character, empty/doubled signature, key id edit, every other pool key, key objects with the signer's id and foreign material in both orders of use. " +
+		Rule: "(1) all operation histories of length<=3 (quick) / <=4 (thorough) over {sign(k0 Ed25519), sign(k1 ECDSA P-256), sign(k2 RSA-2048), dump+load, change a signed field, sign again with the last signer, edit an element of a collection handed out by GetPayload and set the payload again} x {link, layout} x {legacy, DSSE}; after every operation each of 4 keys (3 history keys + an outsider) must verify iff it signed the current content, and every emitted signature is verified independently with crypto/* over reference bytes (reference canonical JSON / reference DSSE PAE); (2) every key kind (RSA-2048/3072, ECDSA P-224/256/384/521, Ed25519; thorough: fresh keys too) x wrapper x payload: library signs -> stdlib verifies, dump+load, stdlib signs reference bytes -> library verifies; DSSE envelope of an independent implementation (other JSON spelling of the payload; standard or URL-safe base64 for signature / payload) loaded, verified, signed with a second key, both signatures verified by the library and independently over the dumped payload bytes; (3) single-point mutations: every payload leaf edit/delete/insert, signature first/middle/last character, empty/doubled signature, valid signature followed by a suffix (one more digit, non-hex / non-base64 characters, blank, newline, padding), key id edit, every other pool key, key objects with the signer's id and foreign material in both orders of use. " +
 			"non-trivial = history contains a sign; distinct = (history, wrapper, payload type) / (key kind, wrapper, payload) / (mutation label...)",
 		Assumptions: []string{"Go's crypto/rsa, crypto/ecdsa, crypto/ed25519 are the trusted base (independent use, not an independent implementation)", "payloads are generated with hostile strings, a third of them with absent (nil) collections; reference bytes come from harness/ref/cjson.go"},
 		Workers:     func(string) int { return 16 },
